@@ -44,7 +44,7 @@ pub fn run(tier: Tier) -> Report {
     let results: Vec<(String, bool, Option<Failure>)> = items
         .par_iter()
         .enumerate()
-        .filter(|(i, it)| i % step == 0 || it.family == "G1-whole-programs" || it.family == "types")
+        .filter(|(i, it)| i % step == 0 || progs::always_included(it.family) || it.family == "types")
         .flat_map_iter(|(i, it)| {
             let pr = print_program(&it.program);
             let n = pr.toks.len();
